@@ -1,0 +1,189 @@
+//go:build verif
+
+// Contracts for package agwpe, checked by /verif/govc. This file contains no
+// code: with the verif tag off it is not compiled at all, with it on it adds
+// only comments.
+package agwpe
+
+/*@
+# ---------------------------------------------------------------------------
+# C13: AGWPE frames
+# ---------------------------------------------------------------------------
+
+# callsign field: the string's bytes, NUL padded to 10
+func agwpe.callsignFromString(s) (c)
+  props C13
+  functional
+  ensures bytes: forall k :: 0 <= k && k < 10 ==> c[k] == ite(k < len(s), s[k], 0)
+
+func agwpe.strFromBytes(b) (s)
+  props C13
+
+func agwpe.connectedDataFrame(port, from, to, data) (f)
+  props C13
+  ensures header: f.Port == port && f.DataKind == 'D' && f.PID == 240 && f.From == agwpe.callsignFromString(from) && f.To == agwpe.callsignFromString(to)
+  ensures data: same(f.Data, data) && f.DataLen == wrap32(len(data))
+
+func agwpe.connectFrame(from, to, port, digis) (f)
+  props C13
+  ensures port: f.Port == port
+  ensures calls: f.From == agwpe.callsignFromString(from) && f.To == agwpe.callsignFromString(to)
+  ensures kind: (len(digis) == 0 ==> f.DataKind == 'C' && len(f.Data) == 0) && (len(digis) > 0 ==> f.DataKind == 'v')
+
+func agwpe.connectViaFrame(from, to, port, digis) (f)
+  props C13
+  ensures header: f.Port == port && f.DataKind == 'v' && f.From == agwpe.callsignFromString(from) && f.To == agwpe.callsignFromString(to)
+  call bytes.(*Buffer).WriteByte requires count-byte: $1 == wrap8(len(digis))
+  call bytes.(*Buffer).Write requires ten-bytes-each: len($1) == 10
+
+func agwpe.disconnectFrame(from, to, port) (f)
+  props C13
+  ensures header: f.Port == port && f.DataKind == 'd' && f.From == agwpe.callsignFromString(from) && f.To == agwpe.callsignFromString(to)
+
+func agwpe.registerCallsignFrame(callsign, port) (f)
+  props C13
+  ensures header: f.Port == port && f.DataKind == 'X' && f.From == agwpe.callsignFromString(callsign)
+
+func agwpe.unregisterCallsignFrame(callsign, port) (f)
+  props C13
+  ensures header: f.Port == port && f.DataKind == 'x' && f.From == agwpe.callsignFromString(callsign)
+
+func agwpe.unprotoInformationFrame(from, to, port, data) (f)
+  props C13
+  ensures header: f.Port == port && f.DataKind == 'M' && f.From == agwpe.callsignFromString(from) && f.To == agwpe.callsignFromString(to)
+  ensures data: same(f.Data, data)
+
+func agwpe.outstandingFramesForConnFrame(port, from, to) (f)
+  props C13
+  ensures header: f.Port == port && f.DataKind == 'Y' && f.From == agwpe.callsignFromString(from) && f.To == agwpe.callsignFromString(to)
+
+func agwpe.outstandingFramesForPortFrame(port) (f)
+  props C13
+  ensures header: f.Port == port && f.DataKind == 'y'
+
+func agwpe.portCapabilitiesFrame(port) (f)
+  props C13
+  ensures header: f.Port == port && f.DataKind == 'g'
+
+# frames for other ports or stations are not delivered
+func agwpe.(framesFilter).Want(f, frame) (r)
+  props C13
+  ensures port: f.port != nil && *f.port != frame.Port ==> !r
+  ensures call: !iszero(f.call) && !(f.call == frame.From || f.call == frame.To) ==> !r
+  ensures to: !iszero(f.to) && !(f.to == frame.To) ==> !r
+  ensures any-kind: len(f.kinds) == 0 && (f.port == nil || *f.port == frame.Port) && (iszero(f.call) || f.call == frame.From || f.call == frame.To) && (iszero(f.to) || f.to == frame.To) ==> r
+  ensures kind: r && len(f.kinds) > 0 ==> exists k :: 0 <= k && k < len(f.kinds) && f.kinds[k] == frame.DataKind
+
+# wire format: DataLen is the actual data length, payload follows the header
+func agwpe.(frame).WriteTo(f, w) (n, err)
+  props C13
+  requires writer: w != nil
+  call agwpe.(header).WriteTo requires datalen: $0.DataLen == wrap32(len(f.Data)) && $0.Port == f.Port && $0.DataKind == f.DataKind && $0.PID == f.PID && $0.From == f.From && $0.To == f.To
+  call io.Writer.Write requires payload: same($1, f.Data)
+
+# any reader, any segmentation: exactly DataLen bytes are read in full
+func agwpe.(*frame).ReadFrom(f, r) (n, err)
+  props C13
+  call io.ReadFull requires whole-data: same($1, f.Data) && len(f.Data) == f.DataLen
+
+func agwpe.(*header).ReadFrom(h, r) (n, err)
+  props C13
+  trusted
+  modifies *h, foreign
+
+func agwpe.(header).WriteTo(h, w) (n, err)
+  props C13
+  trusted
+  modifies foreign
+
+# the panic in Port.write is unreachable when the frame names this port
+func agwpe.(*Port).write(p, f) (err)
+  props C13
+  requires port: f.Port == p.port
+  requires tnc: p.tnc != nil && p.tnc.conn != nil
+
+func agwpe.(*TNC).write(t, f) (err)
+  props C13
+  requires conn: t.conn != nil
+
+# Read: any buffer size; a frame larger than p is delivered over several reads
+func agwpe.(*Conn).Read(c, p) (n, err)
+  props C13
+  ensures bounds: 0 <= n && n <= len(p)
+  ensures rest-first: old(len(c.rest)) > 0 ==> err == nil && n == min(len(p), old(len(c.rest))) && len(c.rest) == old(len(c.rest)) - n
+
+# a frame that was read is never dropped (the non-blocking send's default branch)
+func agwpe.(*demux).Enqueue(d, f) (ok)
+  props C13
+  call agwpe.debugf requires no-drop: false
+
+# every frame handed to the demux owns its data: the read loop passes a fresh frame
+func agwpe.(*TNC).run(t) ()
+  props C13
+  requires tnc: t.conn != nil && t.demux != nil
+  call agwpe.(*TNC).read requires fresh-frame: $1.Data == nil
+
+func agwpe.(*TNC).read(t, f) (err)
+  props C13
+  requires conn: t.conn != nil && f != nil
+
+# ---------------------------------------------------------------------------
+# callers of Port.write: every frame they send names this port (so the panic in
+# Port.write is unreachable) and carries this connection's callsigns
+# ---------------------------------------------------------------------------
+pred ConnOK(c) := c.p != nil && c.p.tnc != nil && c.p.tnc.conn != nil && c.demux != nil
+pred PortOK(p) := p.tnc != nil && p.tnc.conn != nil && p.demux != nil
+
+func agwpe.(*Conn).numOutstandingFrames(c) (n, err)
+  props C13
+  requires conn: ConnOK(c)
+
+func agwpe.(*Conn).Write(c, p) (n, err)
+  props C13
+  requires conn: ConnOK(c)
+  call agwpe.connectedDataFrame requires frame: $0 == c.p.port && same($1, c.srcCall) && same($2, c.dstCall) && same($3, p)
+  ensures count: err == nil ==> n == len(p)
+
+func agwpe.(*Conn).connect(c, ctx) (err)
+  props C13
+  requires conn: ConnOK(c) && ctx != nil
+  # the answer channel only carries the kinds asked for (framesFilter.Want, 'kind' postcondition);
+  # that composition across goroutines is not decided here
+  allowpanic f.DataKind != 'C' && f.DataKind != 'd'
+  call agwpe.connectFrame requires frame: same($0, c.srcCall) && same($1, c.dstCall) && $2 == c.p.port && same($3, c.via)
+
+func agwpe.(*Conn).Close(c) (err)
+  props C13
+  requires conn: ConnOK(c)
+  call agwpe.disconnectFrame requires frame: same($0, c.srcCall) && same($1, c.dstCall) && $2 == c.p.port
+
+func agwpe.(*Port).register(p, ctx) (err)
+  props C13
+  requires port: PortOK(p) && ctx != nil
+  call agwpe.registerCallsignFrame requires frame: same($0, p.mycall) && $1 == p.port
+
+func agwpe.(*Port).getCapabilities(p, ctx) (c, err)
+  props C13
+  requires port: PortOK(p) && ctx != nil
+  ensures nonnil: err == nil ==> c != nil
+  # ctx.Err() is only called after ctx.Done() fired, when it is non-nil (context documentation)
+  call context.Context.Err assume after-done: $r0 != nil
+
+func agwpe.(*Port).Close(p) (err)
+  props C13
+  requires port: PortOK(p)
+  call agwpe.unregisterCallsignFrame requires frame: same($0, p.mycall) && $1 == p.port
+
+func agwpe.(*Port).numOutstandingFrames(p) (n, err)
+  props C13
+  requires port: PortOK(p)
+
+func agwpe.(*Port).SendUI(p, data, dst) (err)
+  props C13
+  requires port: PortOK(p)
+  call agwpe.unprotoInformationFrame requires frame: same($0, p.mycall) && same($1, dst) && $2 == p.port && same($3, data)
+
+func agwpe.(*TNC).Version(t) (v, err)
+  props C13
+  requires tnc: t.conn != nil && t.demux != nil
+@*/
